@@ -109,8 +109,10 @@ Proof. vm_compute. reflexivity. Qed.
 Lemma mutator_rows_nonempty : Nat.leb 40 (length mutator_rows) = true.
 Proof. vm_compute. reflexivity. Qed.
 
-(* path-sensitive pass (vtable.py PathPass): in HashSet and TreeSet no public member function can return normally after
-   writing a structural field of the container without having called IncVersion on some path to that return
-   (catches an early return before IncVersion, or an IncVersion that is only reachable on another path) *)
+(* path-sensitive pass (vtable.py PathPass): in HashSet, TreeSet, HashMap, TreeMap, HashMultiMap (key cell and valueVersion) and
+   DataTable (changeVersion and removeVersion) no public member function can return normally after a structural write of a
+   cell -- an assignment / ++ / -- to a structural field of *this, a mutating call on the nested container (through that
+   container's own summaries), mRaws.Add*/Insert/Remove*/Clear or the destruction of a table raw -- without having bumped
+   that cell on the path to that return (catches an early return before the bump, or a bump only reachable on another path) *)
 Lemma no_structural_write_without_bump_holds : version_leaks = [].
 Proof. reflexivity. Qed.
